@@ -1,10 +1,97 @@
-(* C15 — CoA and Disconnect requests are acted on only if authentic. Statements only. *)
+(* C15 — CoA and Disconnect requests are acted on only if authentic.
+   Statements only; proofs are in Proofs/CoaProofs.v. Each theorem is closed by [exact] and followed
+   by Print Assumptions.
+
+   Subject: [coa_process fixed secret coa_set dm_set handler H stale dg] (Model/Coa.v), the outcome of
+   one iteration of CoAServer.receiveLoop on the UDP datagram [dg]:
+     Drop | Panic | Handle code called request response_bytes.
+   [fixed = true] is the tree that exists (with the `Length < 20` check of finding K15a).
+   Every theorem is for ALL digest functions H (MD5 in the code), all secrets, all handler behaviours,
+   all contents of the reused receive buffer [stale], all byte strings [dg]. *)
 From Coq Require Import NArith List.
 From Verif Require Import Base.Word Model.Coa Model.CoaSpec Proofs.CoaProofs.
 Import ListNotations.
 Local Open Scope N_scope.
 
-Theorem C15_short_datagram_dropped : forall fixed secret cs ds handler H stale dg,
-  (length dg < 20)%nat -> coa_process fixed secret cs ds handler H stale dg = Drop.
-Proof. exact short_datagram_dropped. Qed.
-Print Assumptions C15_short_datagram_dropped.
+(* "complete RADIUS packet whose Request Authenticator verifies", as the code decides it
+   (Model/CoaSpec.v, plain lists):
+     s_complete dg   : >= 20 bytes received (a read takes at most 4096) and 20 <= Length <= received
+     req_verifies    : bytes 4..19 = digest(bytes 0..3 ++ 0^16 ++ bytes 20..Length-1 ++ secret)
+     attrs_parse     : the attribute area parses (type, length >= 2, value)*, a lone trailing byte ignored
+     s_isreq         : Code is 40 (Disconnect-Request) or 43 (CoA-Request) *)
+Definition C15_acted_on secret H dg : Prop :=
+  s_complete dg = true /\ req_verifies secret H dg = true /\
+  (exists attrs, attrs_parse (s_attrs dg) = POk attrs) /\ s_isreq dg = true.
+
+(* (0) refinement: the Model of the code (checked slices over the 4096-byte buffer, offsets, loops)
+   computes the reference semantics on plain lists — for every input *)
+Theorem C15_model_is_reference : forall secret cs ds handler H stale dg,
+  coa_process true secret cs ds handler H stale dg = coa_reference secret cs ds handler H dg.
+Proof. exact model_is_reference. Qed.
+Print Assumptions C15_model_is_reference.
+
+(* (1) if and only if: a handler is dispatched and an ACK/NAK is sent exactly for complete, verifying,
+   parseable CoA/Disconnect requests *)
+Theorem C15_handle_iff : forall secret cs ds handler H stale dg,
+  (exists c called req resp, coa_process true secret cs ds handler H stale dg = Handle c called req resp)
+  <-> C15_acted_on secret H dg.
+Proof. exact handle_iff. Qed.
+Print Assumptions C15_handle_iff.
+
+(* (2) every other datagram is dropped: no handler call, nothing sent *)
+Theorem C15_otherwise_dropped : forall secret cs ds handler H stale dg,
+  ~ C15_acted_on secret H dg -> coa_process true secret cs ds handler H stale dg = Drop.
+Proof. exact otherwise_dropped. Qed.
+Print Assumptions C15_otherwise_dropped.
+
+(* (3) every response: request's identifier, ACK/NAK code of the request's kind, Response Authenticator
+   = digest(resp[0..3] ++ request authenticator ++ resp attributes ++ secret), correct Length field;
+   the request kind is the datagram's code and the handler is invoked iff one is installed *)
+Theorem C15_response_verifies : forall secret cs ds handler H stale dg c called req resp,
+  coa_process true secret cs ds handler H stale dg = Handle c called req resp ->
+  c = s_code dg /\ (c = 40 \/ c = 43) /\
+  called = (if c =? 43 then cs else ds) /\
+  nth 1 resp 0 = nth 1 dg 0 /\
+  (nth 0 resp 0 = c + 1 \/ nth 0 resp 0 = c + 2) /\
+  firstn 16 (skipn 4 resp) = digest16 (H (s_respkey secret dg resp)) /\
+  (N.of_nat (length resp) < 65536 -> s_len resp = length resp).
+Proof. exact response_props. Qed.
+Print Assumptions C15_response_verifies.
+
+(* (4) no datagram makes the listener panic (every slice expression and index of the loop body,
+   verifyRequestAuthenticator and parseAttributes is a checked operation in the Model; the parse loop
+   terminates within its fuel) *)
+Theorem C15_no_panic : forall secret cs ds handler H stale dg,
+  coa_process true secret cs ds handler H stale dg <> Panic.
+Proof. exact no_panic. Qed.
+Print Assumptions C15_no_panic.
+
+(* (5) nothing left in the receive buffer by earlier datagrams influences the outcome *)
+Theorem C15_stale_buffer_irrelevant : forall secret cs ds handler H s1 s2 dg,
+  coa_process true secret cs ds handler H s1 dg = coa_process true secret cs ds handler H s2 dg.
+Proof. exact stale_independent. Qed.
+Print Assumptions C15_stale_buffer_irrelevant.
+
+(* (6) the tree before the fix (finding K15a, commit ce0927a): no_panic is refuted, exactly for
+   datagrams of >= 20 bytes whose Length field is below 20; elsewhere the fix changes nothing *)
+Theorem C15_no_panic_before_fix_refuted : exists dg, forall secret cs ds handler H stale,
+  coa_process false secret cs ds handler H stale dg = Panic.
+Proof. exists k15a_witness. exact unfixed_panics_on_witness. Qed.
+Print Assumptions C15_no_panic_before_fix_refuted.
+
+Theorem C15_before_fix_panic_iff : forall secret cs ds handler H stale dg,
+  coa_process false secret cs ds handler H stale dg = Panic <-> unfixed_panics dg = true.
+Proof. exact unfixed_panic_iff. Qed.
+Print Assumptions C15_before_fix_panic_iff.
+
+Theorem C15_before_fix_partial : forall secret cs ds handler H stale dg,
+  unfixed_panics dg = false ->
+  coa_process false secret cs ds handler H stale dg = coa_process true secret cs ds handler H stale dg.
+Proof. exact unfixed_same_when_length_ok. Qed.
+Print Assumptions C15_before_fix_partial.
+
+(* non-vacuity: both sides of (1)/(2) are inhabited (constant digests; secret "s") *)
+Example C15_acted_on_satisfiable : C15_acted_on [115] (fun _ => []) ex_dg.
+Proof. exact ex_acted_on. Qed.
+Example C15_not_acted_on_satisfiable : ~ C15_acted_on [115] (fun _ => [1]) ex_dg.
+Proof. exact ex_not_acted_on. Qed.
